@@ -8,7 +8,7 @@
 //@ timeout quick=600 thorough=1800
 //@ entry h_rawAttrScan
 //@ note fragment of rawAttrScan: the scanning loop (everything after the three initialisations), entered in the state reached after 1 or 2 attributes, so that the second and third attribute (pair index, vector growth, colon list growth with its copy loop) are within reach of short inputs; the whole function from the start is scan_rawattr_ig_w
-//@ note W: complete for every TOKEN sequence of length <= NIN after the a0-th attribute value (tokens: name, malformed name, '=', quoted value, unterminated quote, white space, '/', '>', '<', other character, end of input), every initial size of the pair vector, colon list capacity 1 or 2 (so that the growth path is taken)
+//@ note W: complete for every sequence of length <= NIN of the tokens name, '=', quoted value, white space, '/', '>', '<', end of input after the a0-th attribute value (the remaining token kinds are covered from the start state in scan_rawattr_ig_w) (tokens: name, malformed name, '=', quoted value, unterminated quote, white space, '/', '>', '<', other character, end of input), every initial size of the pair vector, colon list capacity 1 or 2 (so that the growth path is taken)
 //@ note token-level stubs (contracts/scan_rawattr_harness.inc): getQName and basicAttrValueScan consume one token (their own syntax is proved in rdr_getQName / scan_attvalue_basic_*); scanEq and resizeRawAttrColonList are the real functions; KVStringPair / RefVectorOf are recording sinks; emitError message arguments are not modelled
 #define VERIF_DEFINE_GHOSTS
 #include "verif_prelude.h"
